@@ -34,8 +34,16 @@ RES_NAMES = ["CPU", "GPU", "MEM", "TPU"]
 US = EventTime.Unit.US
 
 
-def et(x):
-    return EventTime(int(x), US)
+UNITS = [(EventTime.Unit.US, 1), (EventTime.Unit.MS, 1000), (EventTime.Unit.S, 10 ** 6)]
+
+
+def et(x, u=0):
+    """The instant / duration of x MICROSECONDS, expressed in unit code u (0 us, 1 ms, 2 s) when that is exact."""
+    unit, f = UNITS[u or 0]
+    x = int(x)
+    if x % f != 0:
+        unit, f = UNITS[0]
+    return EventTime(x // f, unit)
 
 
 def us(t):
@@ -63,12 +71,12 @@ def build(case):
                 rid = "any" if len(rq) == 2 else "p%dw%de%d" % tuple(rq[2])
                 vec[Resource(name=RES_NAMES[rq[0]], _id=rid)] = rq[1]
             strategies.append(ExecutionStrategy(resources=Resources(resource_vector=vec, _logger=lg), batch_size=1,
-                                                runtime=et(s["runtime"])))
+                                                runtime=et(s["runtime"], s.get("runtime_u"))))
         prof = WorkProfile(name="prof%02d" % ti, execution_strategies=ExecutionStrategies(strategies=strategies))
         gname = "g%d" % t["graph"]
-        task = Task(name="t%02d" % ti, task_graph=gname, job=Job(name="job%02d" % ti, profile=prof), deadline=et(t["deadline"]),
-                    profile=prof, timestamp=0, release_time=et(t["release"]), _logger=lg)
-        task.release(et(t["release"]))
+        task = Task(name="t%02d" % ti, task_graph=gname, job=Job(name="job%02d" % ti, profile=prof), deadline=et(t["deadline"], t.get("deadline_u")),
+                    profile=prof, timestamp=0, release_time=et(t["release"], t.get("release_u")), _logger=lg)
+        task.release(et(t["release"], t.get("release_u")))
         tasks.append(task)
         graphs.setdefault(gname, {})[task] = []
     resident = []
@@ -92,10 +100,11 @@ def build(case):
         if not ok:
             continue
         start = max(r["start"], t["release"])
-        task.schedule(et(start), Placement.create_task_placement(task=task, placement_time=et(start), worker_pool_id=pool.id,
-                                                                 execution_strategy=s))
-        task.start(et(start))
-        task.update_remaining_time(et(r["remaining"]))
+        su = r.get("start_u") if start == r["start"] else t.get("release_u")
+        task.schedule(et(start, su), Placement.create_task_placement(task=task, placement_time=et(start, su),
+                                                                     worker_pool_id=pool.id, execution_strategy=s))
+        task.start(et(start, su))
+        task.update_remaining_time(et(r["remaining"], r.get("remaining_u")))
         resident.append(ti)
     tgs = {}
     for g in sorted(graphs):
@@ -162,7 +171,7 @@ def run_case(case):
     random.seed(case.get("rseed", 0))
     wps, pools, tasks, wl, resident = build(case)
     pol = case["policy"]
-    now = et(case["now"])
+    now = et(case["now"], case.get("now_u"))
     if pol == 0:
         mod, sched = edf_mod, edf_mod.EDFScheduler(preemptive=case["preemptive"], runtime=EventTime.zero(),
                                                    enforce_deadlines=case["enforce"])
